@@ -304,3 +304,62 @@ reg(
     "Scalar connector variables only (no arrays of connectors, no expandable / stream connectors); self-connections "
     "connect(a, a) are outside the alphabet.",
 )
+
+reg(
+    "C04",
+    "E4-enum",
+    "exploration",
+    "bounded-exhaustive enumeration of class texts from a feature grammar, oracle = the generator's own record of what it printed, plus in-place mutation probes for shared objects",
+    "Class texts are built from a 32-feature grammar (class kind; flow/stream x discrete/parameter/constant x input/output; type Real/"
+    "Integer/Boolean/local class/dotted name; clause subscripts; 1-3 declarators each with own subscripts, value (=, := , expression, "
+    "array), class modification (one, two, each, nested, dotted), comment (plain, concatenated), annotation; 14 section layouts x position "
+    "of the clause; neighbouring clauses; nested classes (model, same names, two levels, connector, function, short class) x position; "
+    "extends (plain, modified, nested modification, modification naming a declared component, two, component redeclaration) x position; "
+    "imports (qualified, renamed, list of 2 / 3, wildcard, two wildcards, all); a repeated declarator in the same clause / a later or "
+    "earlier clause / another section; sibling top-level class with the same names; equation shapes; within). Every vector within <= 2 "
+    "(quick: 7021 vectors) / <= 3 (thorough: 260411) deviations of the base class is generated, plus the full product of section order "
+    "(every sequence of <= 3 / <= 4 sections out of public, protected, equation, initial equation, algorithm, initial algorithm after "
+    "the unlabelled list) x {1,2,3} declarators or items per section, plus each section emptied in turn (1762 / 12130 texts). One walker "
+    "prints the generator's class model, a second one records what a faithful parse contains; pymoca's tree is compared with it, class "
+    "by class: each component once with name, type, prefixes, evaluated dimensions (own subscripts, then the clause's), visibility of "
+    "its section, strictly increasing order, comment, modifications / value evaluating to the printed values; the four equation / "
+    "statement lists in source order; nested classes, extends and imports on the declaring class and nowhere else; a repeated name "
+    "must be rejected. Then every symbol's prefixes, dimensions, type and class_modification are mutated in place in turn and all other "
+    "symbols must be unchanged.",
+    "Visibility follows pymoca's own convention (unlabelled list -> Visibility.PRIVATE). Dimensions are compared as the flattened "
+    "sequence of evaluated subscripts, not by list nesting. Only the shipped generated parser is a subject. Not compared / outside "
+    "the alphabet: element prefixes final/inner/outer/replaceable, conditional components, each/final flags of modifications, extends "
+    "visibility, class comments and annotations (present as noise only), enumerations, when-equations, redeclare other than a "
+    "component redeclaration inside an extends modification. The aliasing probe mutates the objects pymoca copies per declarator "
+    "(not the inner subscript list that the declarators of `Real[3] a, b` share). Trusted base: the printer and the record walker in "
+    "vf/checks/c04.py, vf.ref.expr for values.",
+)
+
+reg(
+    "C25",
+    "E4-enum",
+    "exploration",
+    "bounded-exhaustive flat / one-level nested models through the real XML generator; output re-parsed with expat and "
+    "compared node for node with our own AST under an explicit spelling table and with a parallel walk over pymoca's flat tree",
+    "Every well-typed expression shape with <= 2 (quick) / 3 (thorough) operator nodes over unary - + not, binary + - * / ^ "
+    "< <= > >= == <> and or, calls of 1-3 arguments (sin cos / max min / semiLinear), der(variable) and String == <>, with the "
+    "leaves bound left to right through a cycle of every leaf kind (continuous / discrete / parameter / constant / Integer / "
+    "Boolean variable, time, Real / Integer / Boolean / String literal) at every rotation of the cycle, 12 equations a model, "
+    "every third numeric expression on the left-hand side; all one-operator expressions with every leaf in every operand "
+    "position and 28 call names; 15 number spellings, both Booleans and 9 strings (XML metacharacters, non-ASCII, empty) as "
+    "operands and as start / value; the full product type x variability x start x value x fixed of declarations (+ attribute "
+    "order, String, alias of a builtin, input / output); one-level nested models (class A with every shape with <= 1 / 2 "
+    "operator nodes, 1-2 instances, 5 modifications, 3 outer equations); single-branch when-equations (every Boolean shape "
+    "with <= 1 / 2 nodes as condition, bodies with equations and reinit). 993 models / 7.7e3 flat equations quick, 15730 "
+    "models / 1.2e5 flat equations thorough. The XML text is parsed with xml.etree (well-formed), component elements are "
+    "matched one to one with the flat variables (name, builtin type, variability, start / value items by meaning), the "
+    "children of <equation> one to one and in order with the flat equations, every expression element node for node "
+    "(operator name, number and order of operands, literal values, variable names).",
+    "Reported only when the XML differs from both our reading of the source and pymoca's own flat tree (XML == flat tree "
+    "but != our reading is a parser / flattener matter and is counted as upstream_disagreements: 0 observed). Not judged: "
+    "the element tag of a literal (every literal is <real value=str(v)/>, Boolean true is value=\"True\"), operator-vs-apply, "
+    "component order, presence of `fixed` (only a fixed item contradicting the declaration is reported). Outside the subset "
+    "(rejected by the backend or not representable): if-expressions, arrays, for/if-equations, elsewhen, initial equations, "
+    "annotations, user functions, signed literals as attribute values (rejection tolerated). Trusted base: the 40-line "
+    "spelling table + readers in vf/checks/c25.py.",
+)
